@@ -6,7 +6,7 @@ import (
 	"fmt"
 	"sort"
 
-	"github.com/taskctl/taskctl/internal/vrt"
+	"github.com/taskctl/taskctl/vrt"
 )
 
 // Locker mirrors sync.Locker.
